@@ -110,6 +110,12 @@ def states(tier, seed):
                 for pl1 in (plz if tier == "thorough" and pto == 1 else [[a] for a in Pz]):
                     for pl2 in plz:
                         out.append({"h": "H1", "fam": "zm", "pto": pto, "tmc": tmc, "card": [[o1, pl1], [o2, pl2]]})
+    if tier == "quick":
+        # O(a_s^2): NLO splitting operators and convolved labels enter the shared scale-variation cache
+        for o in ("F2_total", "FL_light"):
+            for pl in plz:
+                out.append({"h": "H1", "fam": "zm", "pto": 2, "tmc": 0, "card": [[o, pl]]})
+        out.append({"h": "H1", "fam": "zm", "pto": 2, "tmc": 0, "card": [["FL_light", ["r"]], ["F2_total", ["q", "p"]]]})
     # H2
     depth = 3 if tier == "quick" else 4
     menu = h2_menu(tier)
